@@ -189,7 +189,7 @@ impl C12 {
         o.alpha = Alpha::Tiny;
         o.attr_alpha = Alpha::Tiny;
         o.scoping = if src.ratio(3, 4) { Scoping::Well } else { Scoping::Free };
-        o.xml_attrs = false;
+        o.xml_attrs = true;
         // alias prefixes and re-declarations make "bound outside, shadowed inside" layouts frequent
         o.redundant_decls = src.bool();
         o.max_depth = 7;
